@@ -187,6 +187,8 @@ def run(chk):
     c12_bits.run(chk, prog)
     chk.rule('R5', 'mutating operators: size and every bit of the result agree with the reference bit vector', 20)
     c12_bits.mutators(chk, prog)
+    chk.rule('R6', 'iteration visits exactly the set positions in order (linear-search proof of forward()/reverse())', 10)
+    c12_bits.iteration_order(chk, prog)
     if eng.unsupported:
         chk.notes.append('constructs evaluated as opaque: %s' % sorted(set(eng.unsupported))[:10])
     if eng.notes:
